@@ -65,6 +65,33 @@ def search_c16(results, tier, seed, broken):
                 b = ve[k] if k < len(ve) else None
                 if not (a and a[0] in (2, 4) and a[1] == 4):
                     hits.append(_hit(r, comp, streams, cid, "phase-2 call %d: prover returned %s, verifier returned %s" % (k, a, b)))
+            # the phase boundary: gates opened in phase 1 are closed there; a second-phase call never returns a wire of a
+            # first-phase gate, and multipliers_len counts every gate opened so far (checked on each role's own events)
+            for role, e1, e2 in (("prover", p1, im.get(4)), ("verifier", v1, im.get(11))):
+                if e1 is None or e2 is None:
+                    continue
+                ev1, ev2 = vlib.split_lenpref(_ints(e1)), vlib.split_lenpref(_ints(e2))
+                if any(e and e[0] in (2, 4) for e in ev1):
+                    continue     # the prover's first phase ended in an error
+                gates = sum(1 for e in ev1 if e and (e[0] == 3 or (e[0] == 1 and e[1] == 1)))
+                n1_end = gates
+                for k, e in enumerate(ev2):
+                    if not e:
+                        continue
+                    if e[0] == 1 and e[1] in (1, 2, 3):
+                        if e[2] < n1_end:
+                            hits.append(_hit(r, comp, streams, cid, "%s, second-phase call %d: allocation returned wire %s of first-phase gate %d (first phase ended with %d gates): the gate left open at the phase end was paired with an allocation of the next phase" % (role, k, e[1:], e[2], n1_end)))
+                            break
+                        if e[1] == 1:
+                            gates += 1
+                    elif e[0] == 3:
+                        if min(e[2], e[4], e[6]) < n1_end:
+                            hits.append(_hit(r, comp, streams, cid, "%s, second-phase call %d returned wires of a first-phase gate: %s" % (role, k, e)))
+                            break
+                        gates += 1
+                    elif e[0] == 5 and e[1] != gates:
+                        hits.append(_hit(r, comp, streams, cid, "%s, second-phase call %d: multipliers_len() = %d but %d gates were opened so far" % (role, k, e[1], gates)))
+                        break
             # missing assignment must be reported as an error: the model's prover events are the oracle for *where*
             m = r.model.get(cid)
             if m and p1 is not None and m.get(1) is not None:
@@ -714,7 +741,7 @@ def search_c04(results, tier, seed, broken):
         if comp == "r1cs":
             for cid, s in r.summary.items():
                 tag = s.get("tag", "")
-                if not (tag.startswith("mutate") or tag.startswith("mutfield")):
+                if not (tag.startswith("mutate") or tag.startswith("mutfield") or tag.startswith("mutsmall")):
                     continue
                 im, m = r.impl.get(cid) or {}, r.model.get(cid) or {}
                 if 15 not in im:
@@ -792,14 +819,14 @@ PROPS = {
     "C03": {
         "prop_files": ["Properties/C03.v"], "run_files": ["Run/R1cs.v"],
         "level": "proof",
-        "components": lambda tier: [("r1cs", ["honest", "violate", "mutate", "mutfields", "forced"], {})],
+        "components": lambda tier: [("r1cs", ["honest", "violate", "mutate", "mutfields", "mutsmall", "forced", "forge"], {})],
         "search": search_c03,
         "assumptions": ["field and module laws (hypotheses)", "challenges = oracle on the transcript history; the challenges the run inverts are non-zero (all_nz hypothesis)"],
     },
     "C04": {
         "prop_files": ["Properties/C04.v"], "run_files": ["Run/R1cs.v"],
         "level": "proof",
-        "components": lambda tier: [("integrity", ["integrity"], {}), ("r1cs", ["mutate", "mutfields"], {})],
+        "components": lambda tier: [("integrity", ["integrity"], {}), ("r1cs", ["mutate", "mutfields", "mutsmall"], {})],
         "search": search_c04,
         "assumptions": ["deterministic content only: at FIXED challenges no single changed field keeps the check at zero (non-zero coefficients), and every field but (a, b) is part of the history the challenges are derived from; that fresh oracle values on a changed history satisfy the equation only with negligible probability, and that relations between independently derived generators are infeasible to find, are the random-oracle / discrete-log assumptions and are not formalised",
                         "field and F-module laws; non-zero challenges"],
